@@ -16,6 +16,8 @@ pub fn title_sets(tier: Tier, f1: (u32, u32), f2: (u32, u32), f4: (u32, u32)) ->
     for l in LANGS {
         sets.push(TitleSet { name: "e-commerce-titles".into(), l, titles: Titles::List(ecom.clone()), nctx: 2, block: 400 });
         sets.push(TitleSet { name: "lexicon-titles<=3w".into(), l, titles: Titles::Words { lex: lex_strings(l), maxw: 3 }, nctx: 3, block: 300 });
+        sets.push(TitleSet { name: "lexicon-titles<=2w in a crowd of 25".into(), l, titles: Titles::Words { lex: lex_strings(l), maxw: 2 }, nctx: 4, block: 20 });
+        sets.push(TitleSet { name: "long words 19..36 letters".into(), l, titles: Titles::List(long_word_titles(l)), nctx: 4, block: 4 });
         let (a, b, c) = (tier.pick(f1.0, f1.1), tier.pick(f2.0, f2.1), tier.pick(f4.0, f4.1));
         sets.push(TitleSet { name: format!("F1<={}", a), l, titles: Titles::Chars { fam: fam1(l), lo: 0, hi: a }, nctx: 3, block: 500 });
         sets.push(TitleSet { name: format!("F2<={}", b), l, titles: Titles::Chars { fam: fam2(l), lo: 0, hi: b }, nctx: 2, block: 500 });
